@@ -29,9 +29,9 @@ HALF = z3.RealVal('1/2')
 def spec_config(user_np, coord):
     args = dict(densgrid='real[:,:,:]', coord=coord, nthread='int', npartition='int' if user_np else None, verbose=False)
     return FnSpec(TSC, 'tsc_parallel', prop='C07', name=f'tsc_parallel.config[npartition={"user" if user_np else "default"},coord={coord}]',
-                  args=args, slice=('n1d = densgrid.shape[coord]', '<def _check_dtype'),
+                  args=args, slice=('n1d = ', '<def _check_dtype'),
                   requires=['nthread >= 1', f'densgrid.shape[{coord}] >= 1'] + (['npartition >= 0'] if user_np else []),
-                  ensures=['implies(nthread > 1 and npartition > 1, npartition % 2 == 0 and 3 * npartition <= n1d)',     # > 1 stripe per phase needs width >= 3
+                  ensures=[f'implies(nthread > 1 and npartition > 1, npartition % 2 == 0 and 3 * npartition <= densgrid.shape[{coord}])',     # width >= 3 cells ALONG THE PARTITION AXIS
                            'npartition >= 0'],
                   allow_raise=['ValueError'] if user_np else [])
 
@@ -124,6 +124,29 @@ def spec_parallel(weights):
                   loops={0: LoopSpec(invariant=[], writes=fp(0)), 1: LoopSpec(invariant=[], writes=fp(1))})
 
 
+def spec_tail(partitioned, weights, coord):
+    """the call sites after validation: partition_parallel / _tsc_parallel receive the validated nthread, npartition, coord and
+    the same box; the stripes built by the partition are the ones deposited"""
+    part = CalleeSpec(['pos', 'npartition', 'boxsize', 'weights', 'coord', 'nthread', 'sort'],
+                      requires=['nthread == ghost_nthread', 'npartition == ghost_npartition', f'coord == {coord}', 'boxsize == ghost_box',
+                                'implies(ghost_weights, weights is not None)', 'implies(not ghost_weights, weights is None)'],
+                      ensures=['len(result[1]) == npartition + 1', 'len(result[0]) == len(pos)'],
+                      result='tuple:arr:real[:,3];arr:int[:];' + ('arr:real[:]' if weights else 'none'),
+                      defaults=dict(weights=None, coord=0, nthread=-1, sort=False))
+    dep = CalleeSpec(['ppart', 'starts', 'dens', 'box', 'weights', 'offset'],
+                     requires=['box == ghost_box', 'offset == ghost_offset', 'len(starts) == ' + ('ghost_npartition + 1' if partitioned else '2'),
+                               'implies(ghost_weights, weights is not None)', 'implies(not ghost_weights, weights is None)'],
+                     frame=dict(dens=None))
+    req = ['ghost_nthread == nthread', 'ghost_box == box', 'ghost_offset == offset', 'nthread >= 1',
+           'ghost_npartition == npartition', 'npartition > 1' if partitioned else 'npartition <= 1']
+    return FnSpec(TSC, 'tsc_parallel', prop='C07', name=f'tsc_parallel.calls[partitioned={partitioned},weights={weights},coord={coord}]',
+                  args=dict(pos='real[:,3]', densgrid='real[:,:,:]', box='real', weights='real[:]' if weights else None, nthread='int',
+                            npartition='int', sort=False, coord=coord, verbose=False, offset='real', ghost_nthread='int', ghost_box='real',
+                            ghost_offset='real', ghost_npartition='int', ghost_weights=weights),
+                  slice=('if npartition > 1:', '_tsc_parallel(ppart'), requires=req, ignore=[r'\w*time (\+|-)?= ', r'if verbose'],
+                  callees={'partition_parallel': part, '_tsc_parallel': dep})
+
+
 def phase_lemma(run):
     """phase 1 (i < (np+1)//2, stripe 2i) and phase 2 (i < np//2, stripe 2i+1) visit every stripe 0..np-1 exactly once"""
     np_, s, i = z3.Ints('np s i')
@@ -156,7 +179,7 @@ def accepted_npartition(n1d, nthread, npartition, coord=0):
     T.partition_parallel = fake_pp
     T._tsc_parallel = lambda *a, **k: None
     try:
-        shape = [3, 3, 3]
+        shape = [48, 48, 48]            # anisotropic: the other axes are long, the partition axis has n1d cells
         shape[coord] = n1d
         T.tsc_parallel(np.zeros((1, 3), dtype=np.float32), np.zeros(shape, dtype=np.float32), 1.0, nthread=nthread,
                        npartition=npartition, coord=coord, wrap=False)
@@ -204,6 +227,12 @@ def replay_config(obl, model):
     for n1d, nt, npn in cases:
         if npn is not None and npn > n1d:
             continue
+        for coord in (1, 0):
+            st, v = accepted_npartition(n1d, nt, npn, coord)
+            if st == 'accepted' and nt > 1 and v > 1 and v % 2 == 0:
+                why = overlap(n1d, v, coord=coord)
+                if why:
+                    return True, f'grid axis {coord} with {n1d} cells (other axes 48), nthread={nt}, npartition={npn} -> used {v}: {why}'
         st, v = accepted_npartition(n1d, nt, npn)
         if st == 'rejected':
             if npn is None:
@@ -248,6 +277,9 @@ def check(run):
     phase_lemma(run)
     for w in (True, False):
         run.prove(spec_parallel(w), replay_parallel)
+        for partitioned in (True, False):
+            for coord in (0, 1):
+                run.prove(spec_tail(partitioned, w, coord), replay_config)
     run.discharge()
     # bounded: deterministic overlap check of every accepted small configuration
     n = 0
@@ -256,12 +288,13 @@ def check(run):
     for n1d in range(3, 26 if run.tier == 'quick' else 64):
         for nt in (1, 2, 3, 5, 8, 16):
             for npn in [None] + list(range(1, n1d + 1)):
-                st, v = accepted_npartition(n1d, nt, npn)
+                coord = (n1d + nt) % 3           # the partition axis varies; the other axes have 3 cells (anisotropic grid)
+                st, v = accepted_npartition(n1d, nt, npn, coord)
                 n += 1
                 if st == 'accepted' and nt > 1 and v > 1 and bad is None:
                     if len(samples) < 3:
                         samples.append(dict(n1d=n1d, nthread=nt, npartition=npn, used=v))
-                    why = overlap(n1d, v, offsets=(0.5,)) if v % 2 == 0 else f'odd npartition {v} accepted'
+                    why = overlap(n1d, v, coord=coord, offsets=(0.5,)) if v % 2 == 0 else f'odd npartition {v} accepted'
                     if why:
                         bad = (dict(n1d=n1d, nthread=nt, npartition=npn), why)
                 if st == 'rejected' and npn is None and bad is None:
